@@ -1,7 +1,241 @@
 // Shared harness support (compiled only under cfg(kani), inside the scratch copy of bigtools).
-// Stubs listed here are part of every claim that uses them (see DESIGN.md 1.3).
+// Every stub here is part of the claim of each harness that names it (DESIGN.md 1.3).
+//
+// Two build modes share this file:
+//   * `cargo kani`            : cfg(kani), stubs applied by kani-compiler, environment = logs below
+//   * `cargo kani playback`   : cfg(kani) + cfg(verif_replay): NO stubs are applied (plain rustc), so the
+//                               environment is the real thing: a real tokio runtime and a real channel.
+use core::future::Future;
+use core::pin::pin;
+use core::task::{Context, Poll, Waker};
+use std::io;
 
 /// replaces alloc::fmt::format: the *text* of error messages is never part of a property
 pub fn fake_format(_args: core::fmt::Arguments<'_>) -> alloc::string::String {
     alloc::string::String::new()
+}
+
+/// replaces tempfile::tempfile (any reachable call to the real one makes kani-compiler 0.68 panic):
+/// temp-file creation fails; harnesses that use it exercise in-memory staging only
+pub fn fake_tempfile_err() -> io::Result<std::fs::File> {
+    Err(io::Error::from(io::ErrorKind::Other))
+}
+
+/// replaces Vec::push where a harness guarantees (and this stub ASSERTS) that the vector never has to
+/// grow: removes the reallocation path, whose memcpy of a symbolic length is what makes a conditional
+/// push expensive for the solver. A push beyond the capacity is reported as a failed check.
+pub fn push_within_capacity<T, A: core::alloc::Allocator>(v: &mut Vec<T, A>, x: T) {
+    let l = v.len();
+    kani::assert(l < v.capacity(), "[cap] Vec::push beyond the capacity reserved by the harness/code");
+    kani::assume(l < v.capacity());
+    unsafe {
+        core::ptr::write(v.as_mut_ptr().add(l), x);
+        v.set_len(l + 1);
+    }
+}
+
+/// poll a future once with a no-op waker (the bigtools encode/process futures have no real
+/// suspension point once the channel is always ready)
+pub fn poll_once<F: Future>(f: F) -> Option<F::Output> {
+    let mut f = pin!(f);
+    let mut cx = Context::from_waker(Waker::noop());
+    match f.as_mut().poll(&mut cx) {
+        Poll::Ready(v) => Some(v),
+        Poll::Pending => None,
+    }
+}
+
+#[cfg(feature = "write")]
+pub mod env {
+    use super::*;
+    use crate::bbiwrite::SectionData;
+    use futures::channel::mpsc::{channel, Receiver, SendError, Sender};
+    use std::mem::MaybeUninit;
+    use tokio::runtime::Handle;
+    use tokio::task::JoinHandle;
+
+    pub type Out = io::Result<(SectionData, usize)>;
+    pub type Msg = JoinHandle<Out>;
+
+    // ---- kani mode: log of outputs of "spawned" tasks, in spawn order == send order -------------
+    pub const LOG_CAP: usize = 8;
+    pub static mut SPAWNED: usize = 0;
+    pub static mut SENT: usize = 0;
+    pub static mut SLOTS: [usize; LOG_CAP] = [0; LOG_CAP];
+
+    /// stub for tokio::runtime::Handle::spawn: run the future to completion NOW (the bigtools encode
+    /// tasks never suspend), box its output, and hand back the box pointer disguised as a JoinHandle.
+    /// The token is never polled or dropped as a JoinHandle (harnesses mem::forget / reclaim it).
+    pub fn fake_spawn<F>(_h: &Handle, future: F) -> JoinHandle<F::Output>
+    where
+        F: Future + Send + 'static,
+        F::Output: Send + 'static,
+    {
+        let out = match poll_once(future) {
+            Some(o) => o,
+            None => {
+                // contract of the stub: spawned futures complete without suspending
+                kani::assert(false, "[env] spawned future suspended");
+                loop {}
+            }
+        };
+        let p: *mut F::Output = Box::into_raw(Box::new(out));
+        unsafe {
+            SPAWNED += 1;
+            core::mem::transmute_copy::<*mut F::Output, JoinHandle<F::Output>>(&p)
+        }
+    }
+
+    /// alternative stub for Handle::spawn used where the harness asserts that NO task is spawned: the
+    /// future is discarded unexecuted and only counted (SPAWNED); the token must never be consumed.
+    pub fn fake_spawn_skip<F>(_h: &Handle, future: F) -> JoinHandle<F::Output>
+    where
+        F: Future + Send + 'static,
+        F::Output: Send + 'static,
+    {
+        core::mem::forget(future);
+        unsafe {
+            SPAWNED += 1;
+            let p: usize = 8;
+            core::mem::transmute_copy::<usize, JoinHandle<F::Output>>(&p)
+        }
+    }
+
+    /// stub for Sender::poll_ready: the bounded channel is always ready (back-pressure is outside the claim)
+    pub fn fake_poll_ready<T>(_s: &mut Sender<T>, _cx: &mut Context<'_>) -> Poll<Result<(), SendError>> {
+        Poll::Ready(Ok(()))
+    }
+
+    /// stub for Sender::start_send: FIFO into the harness log
+    pub fn fake_start_send<T>(_s: &mut Sender<T>, msg: T) -> Result<(), SendError> {
+        unsafe {
+            kani::assert(SENT < LOG_CAP, "[env] log capacity");
+            // T is always Msg (a pointer-sized token) in these harnesses
+            kani::assert(core::mem::size_of::<T>() == core::mem::size_of::<usize>(), "[env] token size");
+            SLOTS[SENT] = core::mem::transmute_copy::<T, usize>(&msg);
+            SENT += 1;
+        }
+        core::mem::forget(msg);
+        Ok(())
+    }
+
+    /// target of the source-level substitution `X.send(handle).await.expect(..)` -> `direct_send(&mut X, handle)`
+    /// (used by harnesses with `@sub`): same contract as the poll_ready/start_send stubs, without the
+    /// SinkExt::send future and its await point inside the caller's loop
+    pub fn direct_send<T>(s: &mut Sender<T>, msg: T) {
+        let _ = fake_start_send(s, msg);
+    }
+
+    pub struct Env {
+        #[cfg(not(verif_replay))]
+        handle: MaybeUninit<Handle>,
+        #[cfg(verif_replay)]
+        rt: tokio::runtime::Runtime,
+        pub tx: Sender<Msg>,
+        rx: Receiver<Msg>,
+        taken: usize,
+    }
+
+    impl Env {
+        /// never dropped (ManuallyDrop): the uninitialised Handle and queued tokens must not run drop glue
+        pub fn new() -> core::mem::ManuallyDrop<Env> {
+            let (tx, rx) = channel::<Msg>(LOG_CAP);
+            core::mem::ManuallyDrop::new(Env {
+                #[cfg(not(verif_replay))]
+                handle: MaybeUninit::uninit(),
+                #[cfg(verif_replay)]
+                rt: tokio::runtime::Builder::new_current_thread().build().unwrap(),
+                tx,
+                rx,
+                taken: 0,
+            })
+        }
+        /// the runtime handle handed to bigtools (kani: never read, spawn is stubbed)
+        pub fn handle(&self) -> &'static Handle {
+            #[cfg(not(verif_replay))]
+            unsafe {
+                &*self.handle.as_ptr()
+            }
+            #[cfg(verif_replay)]
+            unsafe {
+                &*(self.rt.handle() as *const Handle)
+            }
+        }
+        /// number of sections sent so far
+        pub fn sent(&self) -> usize {
+            #[cfg(not(verif_replay))]
+            unsafe {
+                SENT
+            }
+            #[cfg(verif_replay)]
+            {
+                unimplemented!()
+            }
+        }
+        /// number of tasks spawned so far
+        pub fn spawned(&self) -> usize {
+            unsafe { SPAWNED }
+        }
+        /// next section output, in send order (None when nothing more was sent)
+        pub fn take(&mut self) -> Option<Out> {
+            #[cfg(not(verif_replay))]
+            unsafe {
+                if self.taken >= SENT {
+                    return None;
+                }
+                let p = SLOTS[self.taken] as *mut Out;
+                self.taken += 1;
+                Some(*Box::from_raw(p))
+            }
+            #[cfg(verif_replay)]
+            {
+                match self.rx.try_next() {
+                    Ok(Some(h)) => Some(self.rt.block_on(h).unwrap()),
+                    _ => None,
+                }
+            }
+        }
+    }
+}
+
+/// a regular file with given length whose byte i is (i as u8) ^ 0x5a.
+/// kani: fd 3 of the C libc model (model/verif_libc.c). native replay: a real temporary file.
+pub mod vfile {
+    use std::fs::File;
+    #[cfg(not(verif_replay))]
+    extern "C" {
+        fn verif_file_set_len(fd: i32, len: i64) -> i32;
+        fn verif_file_set_byte(fd: i32, i: i64, b: u8) -> i32;
+    }
+    pub const PATTERN_LEN: i64 = 12;
+    pub fn pattern(i: u64) -> u8 {
+        (i as u8) ^ 0x5a
+    }
+    #[cfg(not(verif_replay))]
+    pub fn make(len: i64) -> File {
+        use std::os::fd::FromRawFd;
+        unsafe {
+            verif_file_set_len(3, len);
+            verif_file_set_byte(3, 0, pattern(0)); verif_file_set_byte(3, 1, pattern(1));
+            verif_file_set_byte(3, 2, pattern(2)); verif_file_set_byte(3, 3, pattern(3));
+            verif_file_set_byte(3, 4, pattern(4)); verif_file_set_byte(3, 5, pattern(5));
+            verif_file_set_byte(3, 6, pattern(6)); verif_file_set_byte(3, 7, pattern(7));
+            verif_file_set_byte(3, 8, pattern(8)); verif_file_set_byte(3, 9, pattern(9));
+            verif_file_set_byte(3, 10, pattern(10)); verif_file_set_byte(3, 11, pattern(11));
+            File::from_raw_fd(3)
+        }
+    }
+    #[cfg(verif_replay)]
+    pub fn make(len: i64) -> File {
+        use std::io::Write;
+        let mut p = std::env::temp_dir();
+        p.push(format!("verif-replay-{}-{}", std::process::id(), len));
+        let mut f = File::create(&p).unwrap();
+        let bytes: Vec<u8> = (0..len as u64).map(pattern).collect();
+        f.write_all(&bytes).unwrap();
+        drop(f);
+        let f = File::open(&p).unwrap();
+        let _ = std::fs::remove_file(&p);
+        f
+    }
 }
